@@ -4,7 +4,10 @@ prop("C17",
                 "NotFound, sandbox not-ready with pod gone or no waiting/running container), never_on_runtime_error, never_running, "
                 "outcomes_classified, one_round_removes_all_dead (+ _state_files with the port-clean callbacks): one sweep removes "
                 "every dead container's file and no other entry, second sweep idle; dead_removed_despite_erroring_entries (the bound holds under "
-                "partial persistent inspect failures, wherever the failing entries sort and in whichever directory); outage_keeps_everything; rounds_bound (1 round "
+                "partial persistent inspect failures, wherever the failing entries sort and in whichever directory); "
+                "interleaved_sweep_removes_only_judged_dead / reassigned_to_running_survives (environment moves landing during inspect "
+                "calls: a removed file holds, when removed, what was read in the same iteration and its owner was judged dead); "
+                "outage_keeps_everything; rounds_bound (1 round "
                 "per directory list); port_mappings_of_dead_cleaned. Tied to /repo by factgen `gc` (state strings, the decision "
                 "table of shouldCleanup as the condition paths of every `return true`, shouldCleanupFailsSafe, collector shape) and "
                 "by differential correspondence of the real flannelGC single-pass entry points against gxdrv_gc, docker branch "
